@@ -43,6 +43,9 @@ def build(repo, findings):
     f = interp.item(r'^async fn spawn_pipeline_processes\(', fn).r1().r3().r4()
     f.resub(r'\bfor _ in ', 'for _i in ', 'R10', 'unused loop variable `_` named (Verus wants a variable)', count=None)
     f.replace('std::io::pipe()?', 'io_pipe()?', 'R14', 'OS call std::io::pipe() -> stub with the same error path')
+    f.resub(r'^[ \t]*let mut stderr = params\.stderr\(shell\);\n', '', 'R2', 'stderr handle used only by the dropped diagnostic', count=None)
+    f.resub(r'^[ \t]*let _ = shell\.display_error\([^;]*\);\n', '', 'R2', 'diagnostic whose result is discarded dropped', count=None)
+    f.resub(r'ExecutionExitCode::from\(&error\)', 'exit_code_of_error(&error)', 'R14', 'From<&Error> for ExecutionExitCode -> stub (arbitrary code)', count=None)
     f.r12(fn, 1)
     f.sig(fn, ret='res', ensures=[
         C('aux log-extends', 'old(shell).stages().is_prefix_of(final(shell).stages())'),
@@ -50,9 +53,9 @@ def build(repo, findings):
     && res->Ok_0@.len() == pipeline.seq@.len()'''),
         C('C02 a-stage-in-its-own-subshell-cannot-steer-the-parent', '''res is Ok ==> forall|k: int| 0 <= k < res->Ok_0@.len() ==>
     result_confined(new_stages(old(shell).stages(), final(shell).stages())[k], #[trigger] res->Ok_0@[k])'''),
-        C('C02 error-stops-at-the-failing-stage', '''res is Err ==> ({
+        C('C02,C03 only-an-error-of-a-stage-run-in-this-shell-ends-the-launch-one-in-a-subshell-of-its-own-fails-that-stage', '''res is Err ==> ({
     let t = new_stages(old(shell).stages(), final(shell).stages());
-    t.len() > 0 ==> !t.last().ok       // (an error with no stage launched: creating a pipe failed)
+    t.len() > 0 ==> (!t.last().ok && !t.last().own_shell)       // (an error with no stage launched: creating a pipe failed)
 })'''),
     ])
     f.ascribe(r'^\s*let mut pipe_readers = vec!\[\];', 'Vec<Option<OpenFile>>', fn_name=fn)
